@@ -159,3 +159,19 @@ def strip_casts(e):
     while e is not None and e.get('k') in ('Cast', 'DefaultArg'):
         e = e['e']
     return e
+
+
+def root_of(e):
+    """Member/Idx chain root that is a data member of *this"""
+    x = e
+    while x is not None:
+        k = x.get('k')
+        if k == 'Member' and x.get('dk') == 'field':
+            return x
+        if k == 'Idx':
+            x = x['a']
+        elif k == 'OpCall' and x['op'] == '[]':
+            x = x['args'][0]
+        else:
+            return None
+    return None
